@@ -114,16 +114,12 @@ class ListenerModel:
         return ks
 
     def _evaluator(self, k: str) -> Evaluator:
+        raw = k.upper()      # the command as written: upper case, so that a missing case fold is visible
+
         def rewrite(t):
-            # ctx.Identifier().getText()[.lower()]  ->  the command name
-            if t[0] == "call" and t[1][0] == "attr" and t[1][2] in ("lower", "casefold") and not t[2]:
-                inner = t[1][1]
-                if _is_ident_text(inner):
-                    return const(k)
-                if is_const(inner) and isinstance(inner[1], str):
-                    return const(inner[1].lower())
+            # ctx.Identifier().getText()  ->  the command name as written
             if _is_ident_text(t):
-                return const(k)
+                return const(raw)
             return None
         return Evaluator(self.repo, AGG_MOD, self.cls, rewrite=rewrite, opaque_methods=("clean_doc_lines",),
                          list_terms=(self.entries, self.defstack, self.clsstack, self.consumed))
